@@ -33,9 +33,10 @@ Record mem := Mem {
   ctl : ctl_st;               (* ghost: where the member's leader loop is *)
   syn : syn_st;               (* SyncTimestamp in flight *)
   upd : upd_st;               (* UpdateTimestamp in flight *)
-  ur  : ur_st                 (* resetUserTimestamp in flight; it holds tsoMux while not RIdle *)
+  ur  : ur_st;                (* resetUserTimestamp in flight; it holds tsoMux while not RIdle *)
+  unsure : bool               (* saveUncertain: a window save returned an error, it may have been applied *)
 }.
-Definition mem0 : mem := Mem None 0 None false CIdle SIdle UIdle RIdle.
+Definition mem0 : mem := Mem None 0 None false CIdle SIdle UIdle RIdle false.
 
 Inductive status := Pending | Granted (te : nat) | Dropped.
 Record rec := Rec { gm : nat; gP : Z; gL : Z; gcount : Z; gtb : nat; glegit : bool; gst : status }.
@@ -59,7 +60,9 @@ Inductive label :=
 | LURBegin (m : nat) (ts : Z) | LURDecide (m : nat) | LURSave (m : nat) (o : outcome) | LUREnd (m : nat)
 | LGen (m : nat) (count : Z) | LRespond (m : nat) (i : nat)
 | LReset (m : nat)         (* ResetTimestamp alone (updateAllocator's error path, ctx done) *)
-| LTermEnd (m : nat).      (* campaignLeader returns: its deferred ResetAllocatorGroup has reset the memory *)
+| LTermEnd (m : nat)       (* campaignLeader returns: its deferred ResetAllocatorGroup has reset the memory *)
+| LUpdAbort (m : nat)      (* UpdateTimestamp: refreshLastSavedTime failed (etcd read error): the call returns the error *)
+| LURAbort (m : nat).      (* resetUserTimestamp: the same *)
 
 Definition upd_f {A} (f : nat -> A) (i : nat) (x : A) : nat -> A := fun j => if Nat.eqb j i then x else f j.
 
@@ -104,17 +107,33 @@ Definition save_txn (s : state) (m : nat) (o : outcome) (target : Z) : state * b
 (* setTSOPhysical(next, force) *)
 Definition set_physical (x : mem) (next : Z) (force : bool) : mem :=
   match phys x with
-  | None => if force then Mem (Some next) 0 (last_saved x) (valid x) (ctl x) (syn x) (upd x) (ur x) else x
+  | None => if force then Mem (Some next) 0 (last_saved x) (valid x) (ctl x) (syn x) (upd x) (ur x) (unsure x) else x
   | Some p => if 0 <? ms next - ms p
-              then Mem (Some next) 0 (last_saved x) (valid x) (ctl x) (syn x) (upd x) (ur x) else x
+              then Mem (Some next) 0 (last_saved x) (valid x) (ctl x) (syn x) (upd x) (ur x) (unsure x) else x
   end.
 
-Definition with_ctl (x : mem) (c : ctl_st) := Mem (phys x) (logical x) (last_saved x) (valid x) c (syn x) (upd x) (ur x).
-Definition with_syn (x : mem) (c : syn_st) := Mem (phys x) (logical x) (last_saved x) (valid x) (ctl x) c (upd x) (ur x).
-Definition with_upd (x : mem) (c : upd_st) := Mem (phys x) (logical x) (last_saved x) (valid x) (ctl x) (syn x) c (ur x).
-Definition with_ur (x : mem) (c : ur_st) := Mem (phys x) (logical x) (last_saved x) (valid x) (ctl x) (syn x) (upd x) c.
-Definition with_valid (x : mem) (v : bool) := Mem (phys x) (logical x) (last_saved x) v (ctl x) (syn x) (upd x) (ur x).
-Definition with_saved (x : mem) (sv : Z) := Mem (phys x) (logical x) (Some sv) (valid x) (ctl x) (syn x) (upd x) (ur x).
+Definition with_ctl (x : mem) (c : ctl_st) := Mem (phys x) (logical x) (last_saved x) (valid x) c (syn x) (upd x) (ur x) (unsure x).
+Definition with_syn (x : mem) (c : syn_st) := Mem (phys x) (logical x) (last_saved x) (valid x) (ctl x) c (upd x) (ur x) (unsure x).
+Definition with_upd (x : mem) (c : upd_st) := Mem (phys x) (logical x) (last_saved x) (valid x) (ctl x) (syn x) c (ur x) (unsure x).
+Definition with_ur (x : mem) (c : ur_st) := Mem (phys x) (logical x) (last_saved x) (valid x) (ctl x) (syn x) (upd x) c (unsure x).
+Definition with_valid (x : mem) (v : bool) := Mem (phys x) (logical x) (last_saved x) v (ctl x) (syn x) (upd x) (ur x) (unsure x).
+(* a successful save: lastSavedTime := what was written, and the uncertainty is gone *)
+Definition with_saved (x : mem) (sv : Z) := Mem (phys x) (logical x) (Some sv) (valid x) (ctl x) (syn x) (upd x) (ur x) false.
+Definition with_unsure (x : mem) (b : bool) := Mem (phys x) (logical x) (last_saved x) (valid x) (ctl x) (syn x) (upd x) (ur x) b.
+(* a save whose commit returned an error (before or after it was applied) leaves the uncertainty mark *)
+Definition after_failed_save (x : mem) (o : outcome) : mem :=
+  with_unsure x (match o with Ok => unsure x | _ => true end).
+(* refreshLastSavedTime: read the own window back when the last save is uncertain *)
+Definition refreshed_saved (x : mem) (w : option Z) : option Z :=
+  if unsure x then
+    match w, last_saved x with
+    | Some wv, Some sv => Some (Z.max sv wv)
+    | Some wv, None => Some wv
+    | None, sv => sv
+    end
+  else last_saved x.
+Definition refreshed (x : mem) (w : option Z) : mem :=
+  Mem (phys x) (logical x) (refreshed_saved x w) (valid x) (ctl x) (syn x) (upd x) (ur x) false.
 
 Definition set_status (r : rec) (st : status) : rec := Rec (gm r) (gP r) (gL r) (gcount r) (gtb r) (glegit r) st.
 Fixpoint set_nth (l : list rec) (i : nat) (st : status) : list rec :=
@@ -162,7 +181,7 @@ Definition step0 (s : state) (l : label) : option state :=
           let target := next + interval s in
           let '(s1, acked) := save_txn s m o target in
           if acked then Some (set_mem s1 m (with_syn (with_saved x target) (SPendSet next)))
-          else Some (set_mem s1 m (with_ctl (with_syn x SIdle) CFailed))
+          else Some (set_mem s1 m (with_ctl (with_syn (after_failed_save x o) SIdle) CFailed))
       | _ => None
       end
   | LSyncSet m =>
@@ -192,8 +211,9 @@ Definition step0 (s : state) (l : label) : option state :=
       let x := mems s m in
       match upd x with
       | URead next => if save_busy x then None
-                      else if need_save x next then Some (set_mem s m (with_upd x (UDecided next)))
-                      else Some (set_mem s m (with_upd x (UPendSet next)))
+                      else let y := refreshed x (W s) in
+                           if need_save y next then Some (set_mem s m (with_upd y (UDecided next)))
+                           else Some (set_mem s m (with_upd y (UPendSet next)))
       | _ => None
       end
   | LUpdSave m o =>
@@ -203,7 +223,7 @@ Definition step0 (s : state) (l : label) : option state :=
           let target := next + interval s in
           let '(s1, acked) := save_txn s m o target in
           if acked then Some (set_mem s1 m (with_upd (with_saved x target) (UPendSet next)))
-          else Some (set_mem s1 m (with_upd x UIdle))
+          else Some (set_mem s1 m (with_upd (after_failed_save x o) UIdle))
       | _ => None
       end
   | LUpdSet m =>
@@ -236,8 +256,9 @@ Definition step0 (s : state) (l : label) : option state :=
       let x := mems s m in
       match ur x with
       | RChecked p l0 => if save_busy x then None
-                         else if need_save x p then Some (set_mem s m (with_ur x (RDeciding p l0)))
-                         else Some (set_mem s m (with_ur x (RSaved p l0)))
+                         else let y := refreshed x (W s) in
+                              if need_save y p then Some (set_mem s m (with_ur y (RDeciding p l0)))
+                              else Some (set_mem s m (with_ur y (RSaved p l0)))
       | _ => None
       end
   | LURSave m o =>
@@ -247,13 +268,13 @@ Definition step0 (s : state) (l : label) : option state :=
           let target := p + interval s in
           let '(s1, acked) := save_txn s m o target in
           if acked then Some (set_mem s1 m (with_ur (with_saved x target) (RSaved p l0)))
-          else Some (set_mem s1 m (with_ur x RIdle))
+          else Some (set_mem s1 m (with_ur (after_failed_save x o) RIdle))
       | _ => None
       end
   | LUREnd m =>
       let x := mems s m in
       match ur x with
-      | RSaved p l0 => Some (set_mem s m (Mem (Some p) l0 (last_saved x) (valid x) (ctl x) (syn x) (upd x) RIdle))
+      | RSaved p l0 => Some (set_mem s m (Mem (Some p) l0 (last_saved x) (valid x) (ctl x) (syn x) (upd x) RIdle (unsure x)))
       | _ => None
       end
   (* ---------------- getTS: generateTSO, then the overflow test and the second Check() ---------------- *)
@@ -264,7 +285,7 @@ Definition step0 (s : state) (l : label) : option state :=
           if negb (locked x) && (0 <? count) then
             let l1 := logical x + count in
             Some (State (W s) (owner s)
-                        (upd_f (mems s) m (Mem (Some p) l1 (last_saved x) (valid x) (ctl x) (syn x) (upd x) (ur x)))
+                        (upd_f (mems s) m (Mem (Some p) l1 (last_saved x) (valid x) (ctl x) (syn x) (upd x) (ur x) (unsure x)))
                         (Rec m (ms p) l1 count (clock s) (is_owner s m) Pending :: recs s)
                         (clock s) (interval s) (gap_ms s))
           else None
@@ -284,14 +305,26 @@ Definition step0 (s : state) (l : label) : option state :=
   | LReset m =>
       let x := mems s m in
       if locked x then None
-      else Some (set_mem s m (Mem None 0 (last_saved x) (valid x) (ctl x) (syn x) (upd x) (ur x)))
+      else Some (set_mem s m (Mem None 0 (last_saved x) (valid x) (ctl x) (syn x) (upd x) (ur x) (unsure x)))
   | LTermEnd m =>
       let x := mems s m in
       if locked x then None
       else match ctl x with
            | CIniting => None                      (* Initialize is a call of the same goroutine *)
-           | _ => Some (set_mem s m (Mem None 0 (last_saved x) (valid x) CIdle (syn x) (upd x) (ur x)))
+           | _ => Some (set_mem s m (Mem None 0 (last_saved x) (valid x) CIdle (syn x) (upd x) (ur x) (unsure x)))
            end
+  | LUpdAbort m =>
+      let x := mems s m in
+      match upd x with
+      | URead _ => if save_busy x then None else if unsure x then Some (set_mem s m (with_upd x UIdle)) else None
+      | _ => None
+      end
+  | LURAbort m =>
+      let x := mems s m in
+      match ur x with
+      | RChecked _ _ => if save_busy x then None else if unsure x then Some (set_mem s m (with_ur x RIdle)) else None
+      | _ => None
+      end
   end.
 
 (* every executed label advances the ghost clock *)
@@ -301,13 +334,10 @@ Definition step (s : state) (l : label) : option state :=
   | None => None
   end.
 
-(* The one fault the repaired code does not absorb (recorded finding): a window save of UpdateTimestamp or
-   resetUserTimestamp that is applied although the client saw an error leaves lastSavedTime behind the
-   stored window, so that a later save may lower the window (memory stays below it all the same). *)
-Definition no_unacked_save (l : label) : bool :=
-  match l with LURSave _ ErrApplied | LUpdSave _ ErrApplied => false | _ => true end.
-Definition step_r (s : state) (l : label) : option state :=
-  if no_unacked_save l then step s l else None.
+(* Every storage outcome is covered: since the repair of the window-save uncertainty (saveUncertain /
+   refreshLastSavedTime) a save that is applied although the client saw an error is absorbed too.  step_r is kept
+   as the name the statements use. *)
+Definition step_r (s : state) (l : label) : option state := step s l.
 
 (* ---------- tsoutil ---------- *)
 Definition compose_ts (physical logical : Z) : Z :=
